@@ -3,7 +3,7 @@
     [Print Assumptions]. *)
 From Coq Require Import List ZArith.
 From Webp Require Import Base.Res Vp8l.Vp8lPixel Vp8l.Vp8lArr Vp8l.Vp8lPrefix Vp8l.Vp8lTransforms Vp8l.Vp8lSpec
-  Vp8l.Vp8lCanon Vp8l.Vp8lLut Vp8l.Vp8lEmit Vp8l.Vp8lEntropy Vp8l.Vp8lCodeLens Vp8l.Vp8lEmitDecode Vp8l.Vp8lWf Vp8l.Vp8lInPlace Vp8l.Vp8lKernels Vp8l.Vp8lTables Vp8l.Vp8lCacheDefer.
+  Vp8l.Vp8lCanon Vp8l.Vp8lLut Vp8l.Vp8lLut2 Vp8l.Vp8lEmit Vp8l.Vp8lEntropy Vp8l.Vp8lCodeLens Vp8l.Vp8lEmitDecode Vp8l.Vp8lWf Vp8l.Vp8lInPlace Vp8l.Vp8lKernels Vp8l.Vp8lTables Vp8l.Vp8lCacheDefer.
 From WebpGen Require Consts Tables.
 Import ListNotations.
 Open Scope Z_scope.
@@ -113,18 +113,18 @@ Proof. exact tree_of_lens_complete. Qed.
 Print Assumptions C03_complete_code_accepted.
 
 (** Implementation model of the decoder's Huffman lookup tables (BuildHuffmanTable:
-    bit-reversed running key, replicate step, second-level tables; ReadSymbol) vs
-    the canonical code: for every length vector the decoder accepts whose lengths
-    do not exceed the root size (the 7-bit code-length table always; the 8-bit
-    tables whenever no code is longer than 8), the table lookup on any bit window
-    returns the symbol and length that walking the canonical code tree gives ...
-    Partial: the two-level case is [lut_decode_eq_canonical_statement]. *)
-Theorem C03_lut_decode_eq_canonical_partial : forall root lens t tab w,
-  0 <= root -> Forall (fun l => l <= root) lens ->
+    symbols sorted by (length, symbol), bit-reversed running key advanced by
+    getNextKey, replicate step, second-level tables sized by nextTableBitSize and
+    linked from the root slot; ReadSymbol: root lookup and optional second-level
+    lookup) vs the canonical code: for every length vector the decoder accepts,
+    every root size 1..15 (the code uses 8 and 7) and every bit window, the table
+    lookup returns the symbol and the length that walking the canonical code tree
+    along the window gives ... *)
+Theorem C03_lut_decode_eq_canonical : forall root lens t tab w, 1 <= root <= 15 ->
   tree_of_lens lens = Ok t -> lut_build root lens = Ok tab -> 0 <= w ->
   exists v n, walk t w = Some (v, n) /\ lut_read root tab w = (v, n).
-Proof. exact lut_decode_eq_canonical_root. Qed.
-Print Assumptions C03_lut_decode_eq_canonical_partial.
+Proof. exact lut_decode_eq_canonical. Qed.
+Print Assumptions C03_lut_decode_eq_canonical.
 
 (** ... where walking the tree along a window is reading the symbol from the
     window's bit list (so [C03_prefix_roundtrip] applies to it). *)
